@@ -461,7 +461,7 @@ def constructor_tables(cx: Cx, ob_id: str) -> dict[str, list[Entry]]:
         if op(v) == "call" and op(v[1]) == "func":
             b = cx.model.functions[v[1][1]]
             if name in TABLES or _returns_dict(b):
-                tables[name] = dict_builder_entries(cx, b, name, ob_id)
+                tables[name] = _for_this_call(dict_builder_entries(cx, b, name, ob_id), b, v)
                 for e in tables[name]:
                     e.conditions = e.conditions + s.must_guards(ev)
                 continue
@@ -525,6 +525,30 @@ def constructor_tables(cx: Cx, ob_id: str) -> dict[str, list[Entry]]:
             # (a bare loop variable as key is the item-by-item copy of another table: the alias handled above)
             tables[name] = list(tables[name]) + [e for e in ents if e.key_unknown and not e.key_fields and op(e.key) != "bv"]
     return tables
+
+
+def _for_this_call(entries: list, builder: FunctionInfo, call_t) -> list:
+    """Entries of a table builder as THIS call runs it: a condition that only tests a parameter the call (or the
+    default) binds to a literal is decided - true ones are dropped from the entry, an entry under a false one is
+    not written by this call at all (a keyword that lets ANOTHER caller build a smaller table)."""
+    b = bind_args(builder, call_t)
+    if b is None:
+        return entries
+    out = []
+    for e in entries:
+        keep, conds = True, []
+        for c, pol in e.conditions:
+            v = b.get(c[1]) if op(c) == "param" else None
+            if v is not None and is_const(v):
+                if bool(v[1]) != bool(pol):
+                    keep = False
+                    break
+                continue
+            conds.append((c, pol))
+        if keep:
+            e.conditions = tuple(conds)
+            out.append(e)
+    return out
 
 
 def _returns_dict(fn: FunctionInfo) -> bool:
@@ -914,6 +938,42 @@ def inline_methods(cx: Cx, t, self_term, cls_q: str, names: set[str], depth: int
                 mapping = {("param", k): inline_methods(cx, v, self_term, cls_q, names, depth + 1) for k, v in b.items()}
                 return inline_methods(cx, substitute(body, mapping), self_term, cls_q, names, depth + 1)
     return tuple(inline_methods(cx, x, self_term, cls_q, names, depth) if isinstance(x, tuple) else x for x in t)
+
+
+def delegated_record_updates(cx: Cx, fn: FunctionInfo, fields: set) -> list[str]:
+    """Names of package functions / methods OTHER than ``fn`` that store into one of ``fields`` of some object and
+    that ``fn`` calls (by name): the update has moved out of ``fn`` into them (a helper object with an ``apply``
+    method, a shared "re-point" helper)."""
+    import ast as _ast
+
+    called = {n.func.attr if isinstance(n.func, _ast.Attribute) else n.func.id if isinstance(n.func, _ast.Name) else None for n in _ast.walk(fn.node) if isinstance(n, _ast.Call)}
+    out = []
+    for g in cx.model.functions.values():
+        if g is fn or g.name not in called or g.parent is not None:
+            continue
+        for n in _ast.walk(g.node):
+            tgts = n.targets if isinstance(n, _ast.Assign) else [n.target] if isinstance(n, (_ast.AugAssign, _ast.AnnAssign)) else []
+            if any(isinstance(t_, _ast.Attribute) and t_.attr in fields for t_ in tgts):
+                out.append(g.qualname)
+                break
+    return out
+
+
+def namedtuple_as_tuple(cx: Cx, t):
+    """``Cls(a, b)`` / ``Cls(y=b, x=a)`` of a package NamedTuple is the tuple of its fields in declaration order."""
+    if op(t) != "call" or op(t[1]) != "cls" or t[1][1] not in cx.model.classes:
+        return t
+    ci = cx.model.classes[t[1][1]]
+    if not any(b.split("[")[0].rsplit(".", 1)[-1] == "NamedTuple" for b in ci.base_exprs):
+        return t
+    names = [n for n, (ann, _) in ci.fields.items() if ann is not None]
+    if any(op(a) == "star" for a in t[2]) or any(k is None for k, _ in t[3]) or len(t[2]) > len(names):
+        return t
+    fields = dict(zip(names, t[2]))
+    fields.update({k: v for k, v in t[3] if k in names})
+    if set(fields) != set(names):
+        return t
+    return ("tuple", tuple(fields[n] for n in names))
 
 
 def inline_functions(cx: Cx, t, depth: int = 0):
